@@ -35,14 +35,32 @@ def _env():
     return e
 
 
+_PROCS = []
+_CANCEL = {'flag': False}
+STOP_EARLY = bool(os.environ.get('VERIF_STOP_ON_VIOLATION'))    # mutation-testing aid: stop the other workers at the first counter-example
+
+
 def run_worker(prop, tier, ob):
     t0 = time.time()
     wall = ob.budget * 2 + 120
+    if _CANCEL['flag']:
+        return {'cancelled': True, 'kind': 'xh'}
+    proc = subprocess.Popen([PY_VT, '-m', 'engine.worker', prop, tier, ob.name], cwd=ROOT, env=_env(),
+                            stdout=subprocess.PIPE, stderr=subprocess.PIPE, text=True)
+    _PROCS.append(proc)
     try:
-        p = subprocess.run([PY_VT, '-m', 'engine.worker', prop, tier, ob.name], cwd=ROOT, env=_env(),
-                           capture_output=True, text=True, timeout=wall)
+        out, err = proc.communicate(timeout=wall)
     except subprocess.TimeoutExpired:
+        proc.kill()
+        proc.communicate()
         return {'error': 'worker wall-clock limit (%ds)' % wall, 'kind': 'xh', 'wall_s': time.time() - t0}
+    if _CANCEL['flag'] and proc.returncode not in (0, 2):
+        return {'cancelled': True, 'kind': 'xh'}
+
+    class _P:
+        pass
+    p = _P()
+    p.stdout, p.stderr, p.returncode = out, err, proc.returncode
     for line in p.stdout.splitlines():
         if line.startswith('RESULT\t'):
             r = json.loads(line[7:])
@@ -78,7 +96,13 @@ def main(prop, tier, only=None):
     with cf.ThreadPoolExecutor(max_workers=NPROC) as ex:
         futs = {ex.submit(run_worker, prop, tier, o): o for o in order}
         for f in cf.as_completed(futs):
-            results[futs[f].name] = f.result()
+            r = f.result()
+            results[futs[f].name] = r
+            if STOP_EARLY and (r.get('cex') or r.get('status') == 'violated') and not _CANCEL['flag']:
+                _CANCEL['flag'] = True
+                for pr in list(_PROCS):
+                    if pr.poll() is None:
+                        pr.kill()
 
     from engine import known as kn
     violations = []
@@ -99,6 +123,10 @@ def main(prop, tier, only=None):
     for o in obs:
         r = results[o.name]
         entry = {'name': o.name, 'bounds': o.bounds, 'input_kinds': o.kinds}
+        if r.get('cancelled'):
+            entry['verdict'] = 'cancelled (VERIF_STOP_ON_VIOLATION)'
+            per_ob.append(entry)
+            continue
         if 'error' in r:
             entry['error'] = r['error']
             harness_errors.append((o.name, r['error']))
